@@ -233,22 +233,37 @@ Proof.
   apply okp_bind; [destruct incl; [apply okp_bind; [apply sizeof_path_extends|intros; exact I]|exact I]|intros; exact I].
 Qed.
 
-(* the length field of a Prefixed reached through names and adapters (what Renamed._actualsize / Adapter._actualsize defer to) *)
+(* the length / count field that measuring a member parses: of a Prefixed reached through names and adapters (what
+   Renamed._actualsize / Adapter._actualsize defer to), of a PrefixedArray *)
 Fixpoint LFok (Q : con -> Prop) (c : con) : Prop :=
   match c with
   | CPrefixed lc _ _ => Q lc
   | CRenamed _ c' | CStringEncoded c' _ | CEnum c' _ | CFlagsEnum c' _ | CMapping c' _ | CHex c' | CHexDump c'
   | CExprValidator c' _ | COneOf c' _ | CNoneOf c' _ | CExprAdapter c' _ _ => LFok Q c'
+  | CFocusedSeq _ [CRenamed _ (CRebuild lc _); CRenamed _ (CArray _ _)] => Q lc
   | _ => True
   end.
 Definition lenfield_ok := LFok.
+(* the field under a (named) Rebuild: what the count member of a PrefixedArray is *)
+Definition RBok (Q : con -> Prop) (c : con) : Prop :=
+  match c with CRebuild lc _ => Q lc | CRenamed _ (CRebuild lc _) => Q lc | _ => True end.
+
+Lemma okp_counted_actualsize lc el : Pok lc -> forall cx p s, okp p (counted_actualsize parse lc el cx p s).
+Proof.
+  intros Hl cx p s. unfold counted_actualsize.
+  apply okp_bind; [apply Hl|intros [lv s1]]. apply okp_bind; [destruct lv; exact I|intros n].
+  apply okp_bind; [apply sizeof_path_extends|intros; exact I].
+Qed.
 
 Lemma okp_actualsize : forall c, LFok Pok c -> Sok (actualsize_with parse c).
 Proof.
-  induction c; intros H cx p s; cbn [actualsize_with]; try apply sizeof_path_extends; cbn [LFok] in H;
-    try (apply IHc; exact H).
-  - (* Renamed *) eapply okp_weaken; [apply prefix_snoc|apply IHc; exact H].
-  - (* Prefixed *) apply okp_prefixed_actualsize, H.
+  induction c using con_ind2; intros HL cx p s; cbn [actualsize_with]; try apply sizeof_path_extends; cbn [LFok] in HL;
+    try (apply IHc; exact HL).
+  - (* FocusedSeq *)
+    repeat first [ apply sizeof_path_extends | match goal with |- okp _ (match ?x with _ => _ end) => destruct x end ].
+    apply okp_counted_actualsize, HL.
+  - (* Renamed *) eapply okp_weaken; [apply prefix_snoc|apply IHc; exact HL].
+  - (* Prefixed *) apply okp_prefixed_actualsize, HL.
 Qed.
 
 Lemma okp_lazy_step Pc Ac nm p st : Pok1 Pc -> Sok Ac -> okp p (lazy_step Pc Ac nm p st).
@@ -281,11 +296,11 @@ Proof.
 Qed.
 
 (* members with their own sub-constructs well behaved *)
-Definition Pok2 (c : con) : Prop := Pok c /\ lenfield_ok Pok c.
+Definition Pok2 (c : con) : Prop := Pok c /\ lenfield_ok Pok c /\ RBok Pok c.
 
 Lemma okp_lazy_scan_struct cs : Forall Pok2 cs -> forall p st, okp p (lazy_scan_struct parse cs p st).
 Proof.
-  induction 1 as [|c t [Hc Hl] Ht IH]; intros p st; cbn [lazy_scan_struct]; [exact I|].
+  induction 1 as [|c t (Hc & Hl & _) Ht IH]; intros p st; cbn [lazy_scan_struct]; [exact I|].
   apply okp_bind; [apply okp_lazy_step; [exact Hc|apply okp_actualsize; assumption]|intros st'; apply IH].
 Qed.
 
@@ -317,15 +332,20 @@ Ltac pkm := repeat first [ pk_parse | progress pk
 
 Theorem parse_path_extends2 : forall c, Pok2 c.
 Proof.
-  induction c using con_ind2; (split; [|unfold lenfield_ok; cbn [LFok];
+  induction c using con_ind2; (split; [|split; [unfold lenfield_ok; cbn [LFok]|cbn [RBok]];
     first [ exact I
           | match goal with H : Pok2 ?l |- Pok ?l => exact (proj1 H) end
-          | match goal with H : Pok2 ?c' |- LFok Pok ?c' => exact (proj2 H) end ]]).
+          | match goal with H : Pok2 ?c' |- LFok Pok ?c' => exact (proj1 (proj2 H)) end
+          | (* Renamed over Rebuild *) match goal with H : Pok2 ?c' |- match ?c' with _ => _ end => destruct c'; try exact I; exact (proj2 (proj2 H)) end
+          | (* FocusedSeq of the PrefixedArray shape *)
+            match goal with H : Forall _ ?cs |- _ =>
+              repeat first [ exact I | match goal with |- match ?x with _ => _ end => destruct x end ];
+              inversion H as [|? ? H0 Ht]; subst; exact (proj2 (proj2 H0)) end ]]).
   all: try (match goal with H : Forall (fun c : con => Pok2 c) ?cs |- _ =>
-              assert (HF2 := H); assert (HF : Forall Pok cs) by (eapply Forall_impl; [|exact H]; intros ? [? ?]; assumption); clear H; rename HF into H end).
+              assert (HF2 := H); assert (HF : Forall Pok cs) by (eapply Forall_impl; [|exact H]; intros ? (? & ? & ?); assumption); clear H; rename HF into H end).
   all: try (match goal with H : Forall (fun vc => Pok2 (snd vc)) ?cs |- _ =>
-              assert (HF : Forall (fun vc => Pok (snd vc)) cs) by (eapply Forall_impl; [|exact H]; intros ? [? ?]; assumption); clear H; rename HF into H end).
-  all: repeat match goal with H : Pok2 _ |- _ => let A := fresh "Hok" in let B := fresh "IHl" in destruct H as [A B]; rename A into H end.
+              assert (HF : Forall (fun vc => Pok (snd vc)) cs) by (eapply Forall_impl; [|exact H]; intros ? (? & ? & ?); assumption); clear H; rename HF into H end).
+  all: repeat match goal with H : Pok2 _ |- _ => let A := fresh "Hok" in let B := fresh "IHl" in let D := fresh "IHr" in destruct H as (A & B & D); rename A into H end.
   all: intros cx p s; cbn [parse].
   all: try solve [pkp].
   all: try solve [pkm].
